@@ -67,6 +67,10 @@ def pong_wire(payload, key_hex):
     return server_frame(0xA, payload, fin=1, mask=key)
 
 
+def close_wire(status, reason, key_hex):
+    return server_frame(0x8, status.to_bytes(2, "big") + reason, fin=1, mask=bytes.fromhex(key_hex))
+
+
 # ------------------------------------------------------------------ frame stream generators
 def rand_payload(rng, n):
     return bytes(rng.randrange(256) for _ in range(n)) if n < 64 else lcg_bytes(n, rng.randrange(1 << 30))
